@@ -40,7 +40,28 @@ fn load_verdict(region: &[u8], total: usize) -> V {
     }
 }
 
+/// The Debug output of a loaded boot information reports the same three numbers as the accessors (small regions only:
+/// it also formats every tag; a panic in there is not this check's business).
+fn debug_report(ctx: &mut Ctx, p: *const u8, total: usize) {
+    let r = ctx.call("Debug(BootInformation)", || unsafe { BootInformation::load(p as *const BootInformationHeader) }.map(|bi| format!("{:?}", bi)).unwrap_or_default());
+    if let Out::Val(text) = r {
+        let field = |name: &str| -> Option<usize> {
+            let i = text.find(name)? + name.len();
+            let digits: String = text[i..].chars().take_while(|c| c.is_ascii_digit()).collect();
+            digits.parse().ok()
+        };
+        let got = (field("start_address: "), field("end_address: "), field("total_size: "));
+        let a = p as usize;
+        if !text.is_empty() && got != (Some(a), Some(a + total), Some(total)) {
+            ctx.violation("c02/load/debug-report", || format!("Debug output reports start/end/total_size = {:?}, the accessors and the region say {:#x}/{:#x}/{}", got, a, a + total, total));
+        }
+    }
+}
+
 fn observe(ctx: &mut Ctx, p: *const u8, expected: V, total: usize) {
+    if expected == V::Ok && total <= 256 {
+        debug_report(ctx, p, total);
+    }
     let r = ctx.call("BootInformation::load", || unsafe {
         BootInformation::load(p as *const BootInformationHeader).map(|bi| {
             (bi.start_address(), bi.end_address(), bi.total_size(), bi.as_ptr() as usize)
@@ -94,7 +115,7 @@ fn run(ctx: &mut Ctx) {
     ctx.bound(
         "space",
         format!(
-            "null pointer; every total-size word 0..={} x reserved word {{0, 8, 0xFFFFFFFF, the total size itself, its complement, its negation}} x last 8 bytes of the declared region = (type word in {{0,1,8,0x100,0x10000,0x01000000,0x80000000,0xFFFFFFFF}}) x (size word in {{8,0,7,9,16,0x108,0x10008,0x01000008,0x80000008,0xFFFFFFFF}}); for total sizes 16, 24 and 4096 additionally every 1-bit and 2-bit flip of a valid end tag; region placed flush against a PROT_NONE guard page",
+            "null pointer; every total-size word 0..={} x reserved word {{0, 8, 0xFFFFFFFF, the total size itself, its complement, its negation}} x last 8 bytes of the declared region = (type word in {{0,1,8,0x100,0x10000,0x01000000,0x80000000,0xFFFFFFFF}}) x (size word in {{8,0,7,9,16,0x108,0x10008,0x01000008,0x80000008,0xFFFFFFFF}}); for total sizes 16, 24 and 4096 additionally every 1-bit and 2-bit flip of a valid end tag; region placed flush against a PROT_NONE guard page; for accepted regions of up to 256 bytes the three numbers in the Debug output are compared too",
             max_total
         ),
     );
